@@ -6,19 +6,22 @@ by TLC from the recorded lines with spec/Typed.tla; this module never states an 
 import random
 
 NUMS = ["0", "1", "007", "100", "255", "256", "65536", "4294967295", "4294967296", "18446744073709551615", "18446744073709551616", "99999999999999999999999",
-        "-1", "+5", "", " 1", "1 ", "abc", "1e3", "0x10", "1.0"]
+        "-1", "+5", "", " 1", "1 ", "abc", "1e3", "0x10", "1.0", "50\r", "\r5"]
 GOODNUMS = ["0", "1", "7", "100", "255", "4294967295", "18446744073709551615", "12345678901234"]
 DURS = ["0", "1", "0.001", "123.456", "5.5", "59.999", "0.0005", "1234567.891", "0.123456789", "1e400", "-0", "-1", "-0.5", "NaN", "nan", "inf", "-inf", "infinity", " 1", "", "abc",
         "1e3", ".5", "5.", "18446744073709551615", "18446744073709551616", "1.2.3", "999999999999", "1e-3", "+1.5", "0.0000000001"]
-GOODDURS = ["0", "1", "0.001", "123.456", "5.5", "59.999", "240", "1234567.891", "0.5", "3599.999"]
+GOODDURS = ["0", "1", "0.001", "123.456", "5.5", "59.999", "240", "1234567.891", "0.5", "3599.999",
+            "18446744074", "100000000000", "4611686019", "999999999999999", "18446744073.000"]   # whole seconds beyond 2^64 ns / 2^32 s: still exact
 TAGKEYS = ["Artist", "Album", "Title", "Genre", "Track", "Disc", "Date", "MUSICBRAINZ_ALBUMID", "x-custom", "AlbumArtist", "Performer"]
 ALL_TAGS = ["Artist", "ArtistSort", "Album", "AlbumSort", "AlbumArtist", "AlbumArtistSort", "Title", "Track", "Name", "Genre", "Date", "OriginalDate", "Composer", "ComposerSort",
             "Performer", "Conductor", "Work", "Ensemble", "Movement", "MovementNumber", "Location", "Grouping", "Comment", "Disc", "Label", "MUSICBRAINZ_ARTISTID", "MUSICBRAINZ_ALBUMID",
             "MUSICBRAINZ_ALBUMARTISTID", "MUSICBRAINZ_TRACKID", "MUSICBRAINZ_RELEASETRACKID", "MUSICBRAINZ_WORKID"]
 TAGKEYS += ALL_TAGS
+TAGKEYS += ["_comment", "-x", "x_", "a--b", "__"]     # the protocol's name alphabet is letters, `_` and `-` in any position
 # known names in other letter cases (the library documents case-insensitive parsing: values must land under the same tag)
 TAGKEYS_ODD = ["artist", "ARTIST", "title", "X_Y", "a-b"] + [t.lower() for t in ALL_TAGS] + [t.upper() for t in ALL_TAGS] + [t.swapcase() for t in ALL_TAGS[::3]]
-TEXT = ["", "x", "Foo Bar", "été", "a=b=c", "OK", "ACK [5@0] {} x", "binary: 3", "list_OK", "a: b", "100%", "  lead", "trail  ", "x" * 300]
+TEXT = ["", "x", "Foo Bar", "été", "a=b=c", "OK", "ACK [5@0] {} x", "binary: 3", "list_OK", "a: b", "100%", "  lead", "trail  ", "x" * 300,
+        "dos line\r", "one\rtwo", "\r", "tab\there"]          # CR / TAB are ordinary value bytes (the line ends at LF only)
 TS = ["2020-06-12T17:53:00Z", "2021-01-01T00:00:00+02:00", "1970-01-01T00:00:00Z"]
 TS_ODD = ["", "yesterday", "2020-13-45T99:99:99Z", "2020-06-12"]
 URLS = ["a.flac", "dir/b c.mp3", "é.ogg", "http://x/y?z=1", "x"]
@@ -218,7 +221,7 @@ def pairs(rng, good, k1, k2, v1, v2):
     return f
 
 
-STICKV = ["name=value", "a=b=c", "rating=5", "=", "x=", "=y", "k=é"]
+STICKV = ["name=value", "a=b=c", "rating=5", "=", "x=", "=y", "k=é", "note=dos line\r", "n=one\rtwo"]
 STICKV_ODD = ["novalue", "", "x"] + LONGS[4:7]
 
 
